@@ -48,7 +48,14 @@ func r3C08(c *Ctx) {
 		c.Unresolved("R8.7", "handleDeployment")
 		return
 	}
-	writes := CallsIn(fn, "mutating.setDeploymentStrategyAnnotation")
+	// the write-back may sit in handleDeployment or in a helper the in-progress branch was extracted into
+	var writes []ssa.CallInstruction
+	for _, hf := range samePkgClosure(p, fn) {
+		if strings.HasSuffix(FuncName(hf), "setDeploymentStrategyAnnotation") {
+			continue
+		}
+		writes = append(writes, CallsIn(hf, "mutating.setDeploymentStrategyAnnotation")...)
+	}
 	if len(writes) == 0 {
 		c.Ob("R8.7", "handleDeployment#strategy-write", fn.Pos(), false, "strategy annotation written back", "anchor not found")
 		return
@@ -73,8 +80,11 @@ func r3C08(c *Ctx) {
 		v, isC := StoredConst(st)
 		return isC && v == "true"
 	}
+	outer := fn
 	for _, w := range writes {
 		wi := w.(ssa.Instruction)
+		fn := wi.Parent()
+		_ = outer
 		only := func(in ssa.Instruction) bool { return in == wi }
 		skip, _ := CanReach(Entry(fn), only, ReachOpts{CutInstr: isRevTest})
 		c.Ob("R8.7", "handleDeployment#revision-tested", w.Pos(), !skip, "the strategy is written back only after the update was tested for a revision change", ifs(skip, "the write is reachable without isEffectiveDeploymentRevisionChange: an update that also carries rollingUpdate (a full-manifest apply) skips the freeze"))
